@@ -101,6 +101,24 @@ func (c09) Gen(r *Rng, tier string, emit func(string, Tok)) {
 				mask := psiBurstMask(r, s%8, n)
 				emit("burst-"+name, L(I(2), B(bs), I(int64(s/8)), B(mask)))
 			}
+			// a damaged body with the CRC_32 field overwritten by a constant (a value a parser might take for "absent")
+			if len(bs) > 12 {
+				for j := 0; j < 8; j++ {
+					m := psiCopy(bs)
+					if j%4 != 3 {
+						bit := r.Range(8*4, 8*(len(m)-4)-1)
+						m[bit/8] ^= 0x80 >> uint(bit%8)
+					}
+					fill := []byte{0x00, 0xff, 0x00, 0x01}[j%4]
+					for i := len(m) - 4; i < len(m); i++ {
+						m[i] = fill
+					}
+					if j%4 == 3 {
+						m[len(m)-1] = 0x00 // CRC field 0x01010100: a sanity case
+					}
+					emit("crc-field-constant-"+name, L(I(1), B(m)))
+				}
+			}
 			for j := 0; j < 12; j++ {
 				ext := r.Bytes(r.Range(1, 10))
 				switch j % 4 {
